@@ -6,6 +6,9 @@ import "github.com/alttpo/snes/emulator"
 // A fresh System is given arbitrary ROM / WRAM / SRAM contents; CreateEmulator's loops have constant bounds
 // and are unrolled completely; each of its ~400 Attach calls goes through Attach's contract (proved under
 // C13), whose range-update postcondition is bound as a lambda, so the final routing table stays quantifier-free.
+// The value clauses hold for every address the MAPPER assigns, whenever the read returns at all (maypanic: an
+// address the console leaves unmapped panics in EaRead); they are deliberately not conditioned on the routing
+// table, so a read that reaches some other storage by a detour is still compared with the mapper's cell.
 
 //@ lemma EmuRead property C11
 //@   maypanic
@@ -13,9 +16,9 @@ import "github.com/alttpo/snes/emulator"
 //@   requires a < 0x1000000
 //@   ensures isnil(err)
 //@   ensures isdyn(s.Bus.segment[a>>4], "emulator/memory.RAM") ==> mapspec.LoROMOk(a)
-//@   ensures isdyn(s.Bus.segment[a>>4], "emulator/memory.RAM") && mapspec.Class(mapspec.LoROMPak(a)) == mapspec.ROM ==> v == rom[mapspec.LoROMPak(a)]
-//@   ensures isdyn(s.Bus.segment[a>>4], "emulator/memory.RAM") && mapspec.Class(mapspec.LoROMPak(a)) == mapspec.SRAM ==> v == sram[mapspec.LoROMPak(a)-0xE00000]
-//@   ensures isdyn(s.Bus.segment[a>>4], "emulator/memory.RAM") && mapspec.Class(mapspec.LoROMPak(a)) == mapspec.WRAM ==> v == wram[mapspec.LoROMPak(a)-0xF50000]
+//@   ensures mapspec.LoROMOk(a) && mapspec.Class(mapspec.LoROMPak(a)) == mapspec.ROM ==> v == rom[mapspec.LoROMPak(a)]
+//@   ensures mapspec.LoROMOk(a) && mapspec.Class(mapspec.LoROMPak(a)) == mapspec.SRAM ==> v == sram[mapspec.LoROMPak(a)-0xE00000]
+//@   ensures mapspec.LoROMOk(a) && mapspec.Class(mapspec.LoROMPak(a)) == mapspec.WRAM ==> v == wram[mapspec.LoROMPak(a)-0xF50000]
 
 func EmuRead(rom *[0x1000000]byte, wram *[0x20000]byte, sram *[0x10000]byte, a uint32) (v byte, err error) {
 	s := &emulator.System{}
